@@ -21,7 +21,8 @@ def hashseed_of_worker(w):
 def draw(seed, i):
     from . import wiki
     rng = rng_for(seed, PROP, i)
-    spec = wiki.gen_spec(rng, size="small" if rng.random() < 0.8 else "large")
+    r = rng.random()
+    spec = wiki.gen_spec(rng, size="small" if r < 0.78 else ("large" if r < 0.97 else "huge"))
     faultfree = rng.random() < 0.15
     cfg = {"latency": "constant" if faultfree else rng.choice(["constant", "uniform", "uniform", "heavy", "heavy"]),
            "p_stall": 0.0 if faultfree else rng.choice([0.0, 0.0, 0.02, 0.1]),
@@ -35,6 +36,10 @@ def draw(seed, i):
                     "rvlimit": rng.choice([1, 2, 3, 10, 50, 500]),
                     "max_connections": rng.choice([1, 2, 10, 20]),
                     "max_requests_per_second": rng.choice([0, 0, 0, 2, 20])}}
+    if len(spec["metabook"]) > 50:
+        # a big book with generous limits (the defaults are 15 values per request, 500 results per answer)
+        cfg["conf"]["api_result_limit"] = rng.choice([500, 500, 50])
+        cfg["conf"]["api_request_limit"] = rng.choice([15, 50, 50])
     return rng, spec, cfg
 
 
